@@ -561,7 +561,7 @@ class FunctionalRightScalarMult(Functional, OperatorRightScalarMult):
 
         Functional.__init__(
             self, space=func.domain, linear=func.is_linear,
-            grad_lipschitz=np.abs(scalar) * func.grad_lipschitz)
+            grad_lipschitz=np.abs(scalar) ** 2 * func.grad_lipschitz)
         OperatorRightScalarMult.__init__(self, operator=func, scalar=scalar)
 
     @property
@@ -1006,10 +1006,10 @@ class FunctionalQuadraticPerturb(Functional):
         else:
             self.__linear_term = func.domain.zero()
 
-        if linear_term is None:
-            grad_lipschitz = func.grad_lipschitz
-        else:
-            grad_lipschitz = (func.grad_lipschitz + self.linear_term.norm())
+        grad_lipschitz = (func.grad_lipschitz +
+                          2 * abs(self.__quadratic_coeff))
+        if linear_term is not None:
+            grad_lipschitz = grad_lipschitz + self.linear_term.norm()
 
         constant = func.domain.field.element(constant)
         if constant.imag != 0:
